@@ -48,6 +48,12 @@ func (it *Iterator) SeekFirst() {
 	it.prev = it.s.head
 	it.curr, _ = it.s.head.getNext(0)
 	it.valid = true
+	// The first node may be logically deleted but not yet unlinked
+	if it.curr != it.s.tail {
+		if _, deleted := it.curr.getNext(0); deleted {
+			it.Next()
+		}
+	}
 }
 
 // SeekWithCmp moves iterator to a provided item by using custom comparator
@@ -122,6 +128,14 @@ retry:
 	} else {
 		it.prev = it.curr
 		it.curr = next
+	}
+
+	// Do not stop on a node that is already logically deleted but not yet
+	// unlinked: help unlinking it and move on.
+	if it.curr != it.s.tail {
+		if _, deleted := it.curr.getNext(0); deleted {
+			goto retry
+		}
 	}
 
 	it.count++
